@@ -55,9 +55,10 @@ class TLCResult:
         return parse_printed(self.out, tag)
 
 
-def _java_cmd(heap: str = "6g") -> list[str]:
+def _java_cmd(heap: str = "6g", tmpdir=None) -> list[str]:
     return [
         "java",
+        *([f"-Djava.io.tmpdir={tmpdir}"] if tmpdir else []),      # TLC's own tlc-<n> scratch directory goes where we clean up
         f"-Xmx{heap}",
         "-XX:+UseParallelGC",
         f"-DTLA-Library={SPEC_DIR}",
@@ -192,7 +193,7 @@ def run(
             shutil.copy(src, root)
         (work / "run.cfg").write_text(cfg)
         ce = work / "ce.json"
-        cmd = _java_cmd(heap)
+        cmd = _java_cmd(heap, tmpdir=work)
         if dfs_queue:
             cmd.insert(1, "-Dtlc2.tool.queue.IStateQueue=StateDeque")
         cmd += [
@@ -288,7 +289,7 @@ def simulate(
             shutil.copy(SPEC_DIR / f"{module}.tla", root)
         (work / "run.cfg").write_text(cfg)
         (work / "sim").mkdir()
-        cmd = _java_cmd() + [
+        cmd = _java_cmd(tmpdir=work) + [
             "-simulate", f"file={work}/sim/tr,num={num}",
             "-depth", str(depth),
             "-workers", "1",
